@@ -23,7 +23,7 @@ type c09Attempt struct {
 type c09Case struct {
 	BaseUs    int          `json:"baseUs"`
 	MaxUs     int          `json:"maxUs"`
-	Attempts  []c09Attempt `json:"attempts"` // outcome of dial attempt 1, 2, ...; beyond the list: up
+	Attempts  []c09Attempt `json:"attempts"`            // outcome of dial attempt 1, 2, ...; beyond the list: up
 	Stop      string       `json:"stop,omitempty"`      // "" | disconnect | cancel
 	StopPhase string       `json:"stopPhase,omitempty"` // dialling | connecting | connected | waiting
 	StopAt    int          `json:"stopAt,omitempty"`    // attempt number the phase refers to
@@ -207,7 +207,9 @@ func c09Run(tb rapid.TB, c c09Case) {
 		case "connecting":
 			w = waitFor(func() bool { return hasEvent(k, "W", func(e vEvent) bool { return e.Pkt.Type == rtConnect }) })
 		case "connected":
-			w = waitFor(func() bool { return hasEvent(k, "STATE", func(e vEvent) bool { return strings.HasPrefix(e.Note, "Active") }) })
+			w = waitFor(func() bool {
+				return hasEvent(k, "STATE", func(e vEvent) bool { return strings.HasPrefix(e.Note, "Active") })
+			})
 		case "waiting":
 			// attempt k-1 has ended: the loop is (about to be) waiting before attempt k
 			w = waitFor(func() bool {
@@ -253,7 +255,9 @@ func c09Run(tb rapid.TB, c c09Case) {
 		d.release()
 	} else {
 		n := len(c.Attempts)
-		w := waitFor(func() bool { return hasEvent(n+1, "STATE", func(e vEvent) bool { return strings.HasPrefix(e.Note, "Active") }) })
+		w := waitFor(func() bool {
+			return hasEvent(n+1, "STATE", func(e vEvent) bool { return strings.HasPrefix(e.Note, "Active") })
+		})
 		if w == "stuck" {
 			fail("the reconnect loop went idle after %d of %d scripted attempts: no redial after an unexpected end\n%s", d.dialCount(), n, vGoroutineDump())
 		}
